@@ -51,9 +51,18 @@ def cases(tier, seed):
 
 
 def run_case(case):
+    r = engine.new_result()
+    try:
+        return _run_case(case, r)
+    except Exception as e:
+        if type(e).__name__ == 'LibraryRaised':
+            return r
+        raise
+
+
+def _run_case(case, r):
     from mc.ref.archimedean import Ref
     fam, th, nxt, tier = case
-    r = engine.new_result()
     if th == 'history':
         from mc.lib import history_walk
         g = sorted(set(A.tier_grid(tier) + A.BOUNDARY))
@@ -61,7 +70,7 @@ def run_case(case):
                      f'C06:{fam}', case)
         r.outcome(f'{fam}:history')
         return r
-    g = sorted(set(A.tier_grid(tier) + A.BOUNDARY))
+    g = sorted(set(A.tier_grid(tier) + A.BOUNDARY + A.TINY))
     m = len(g)
     P = grid_pairs(g)
     cop = make_biv(fam, th)
@@ -70,9 +79,19 @@ def run_case(case):
     r.hit(f'family:{fam}')
     TOL_AXIOM = TOL_AXIOM_BY_FAMILY[fam]
 
+    class LibraryRaised(Exception):
+        pass
+
     def cdf(X):
         r.tr()
-        return np.asarray(cop.cumulative_distribution(np.array(X, dtype=float)), dtype=float)
+        X = np.array(X, dtype=float)
+        try:
+            return np.asarray(cop.cumulative_distribution(X), dtype=float)
+        except Exception as e:          # every point of the closed unit square is a valid argument
+            r.violation(f'{sig}:cdf-raises:{type(e).__name__}', f'{fam} theta={th}: cumulative_distribution raised '
+                        f'{type(e).__name__}: {e} on a batch of {len(X)} points of the unit square (first row {X[0].tolist()})',
+                        case=case)
+            raise LibraryRaised()
 
     # ---- layouts -------------------------------------------------------------------------------
     alone = np.array([cdf(P[i:i + 1])[0] for i in range(len(P))])
@@ -91,10 +110,15 @@ def run_case(case):
         r.violation(f'{sig}:argument-reuse', f'{fam} theta={th}: cumulative_distribution '
                     f'{"modified its argument" if not np.array_equal(same, P) else "answers differently the second time"} '
                     f'when the same array object is evaluated twice', case=case)
-    # ... and the same array object REFILLED in place between two calls: the answer is a function of the values
+    # ... and the same array object REFILLED in place between two calls: the answer is a function of the values; the array
+    # returned by the earlier call must not be rewritten by the later one
+    kept = np.array(second_ans, float)
     same[:] = P[::-1]
     r.tr()
     refilled = np.asarray(cop.cumulative_distribution(same), float)[::-1]
+    if not np.array_equal(second_ans, kept, equal_nan=True):
+        r.violation(f'{sig}:result-rewritten-by-later-call', f'{fam} theta={th}: the array returned by cumulative_distribution '
+                    f'changed when it was called again on the same copula', case=case)
     r.ev(len(P) * (5 + k))
     for name, arr in (('full', full), ('reversed', rev), ('boundary-first', zf), ('same-object-refilled-in-place', refilled)) + \
             tuple((f'tile{j}', tiled[j]) for j in (0, k - 1)):
@@ -156,13 +180,15 @@ def run_case(case):
     Pi = P[interior]
     with np.errstate(all='ignore'):
         g1 = float(np.asarray(cop.generator(np.array([1.0])))[0])
-        gi = np.asarray(cop.generator(np.asarray([x for x in g if 0 < x <= 1])), float)
+        gi = np.asarray(cop.generator(np.asarray([x for x in g if 0 <= x <= 1])), float)     # generator(0) = +inf included
         lhs = np.asarray(cop.generator(alone[interior]), float)
         rhs = np.asarray(cop.generator(Pi[:, 0]), float) + np.asarray(cop.generator(Pi[:, 1]), float)
     r.tr(5)
     if not abs(g1) <= 1e-12:
         r.violation(f'{sig}:generator-at-1', f'{fam} theta={th}: generator(1)={g1!r}', case=case)
-    if not np.all(np.diff(gi) <= 1e-12 * np.maximum(1, np.abs(gi[:-1]))):
+    with np.errstate(all='ignore'):
+        steps = np.where(np.isinf(gi[:-1]) & (gi[:-1] > 0), -np.inf, np.diff(gi))          # +inf -> anything is a decrease
+    if np.isnan(gi).any() or not np.all(steps <= 1e-12 * np.maximum(1, np.abs(np.where(np.isfinite(gi[:-1]), gi[:-1], 1.0)))):
         r.violation(f'{sig}:generator-not-decreasing', f'{fam} theta={th}: generator increases on grid',
                     case=case)
     # the identity is compared where phi is well conditioned: C not within 1e-6 of 0 or 1
